@@ -159,7 +159,7 @@ func (x *explorer) resolve(t *Term, st map[int]Val, depth int) *Term {
 	}
 	n := t
 	if changed {
-		n = &Term{Op: t.Op, Name: t.Name, Args: args, V: t.V, Fields: t.Fields, Pos: t.Pos}
+		n = &Term{Op: t.Op, Name: t.Name, Args: args, V: t.V, Fields: t.Fields, Pos: t.Pos, Owner: t.Owner}
 	}
 	return x.simplify(n, st, depth)
 }
@@ -175,9 +175,9 @@ func (x *explorer) simplify(t *Term, st map[int]Val, depth int) *Term {
 			}
 		case "addrvar":
 			inner := x.resolve(varTerm(b.V), st, depth+1)
-			return x.simplify(&Term{Op: "field", Name: t.Name, Args: []*Term{inner}, Pos: t.Pos}, st, depth+1)
+			return x.simplify(&Term{Op: "field", Name: t.Name, Args: []*Term{inner}, Pos: t.Pos, Owner: t.Owner}, st, depth+1)
 		case "addr", "deref":
-			return x.simplify(&Term{Op: "field", Name: t.Name, Args: []*Term{b.Args[0]}, Pos: t.Pos}, st, depth+1)
+			return x.simplify(&Term{Op: "field", Name: t.Name, Args: []*Term{b.Args[0]}, Pos: t.Pos, Owner: t.Owner}, st, depth+1)
 		}
 	case "deref":
 		b := t.Args[0]
@@ -273,7 +273,7 @@ func (x *explorer) deep(t *Term, st map[int]Val, depth int) *Term {
 	if !changed {
 		return t
 	}
-	return &Term{Op: t.Op, Name: t.Name, Args: args, V: t.V, Fields: t.Fields, Pos: t.Pos}
+	return &Term{Op: t.Op, Name: t.Name, Args: args, V: t.V, Fields: t.Fields, Pos: t.Pos, Owner: t.Owner}
 }
 
 // ageTerm marks the element/key of the range loop over xkey held in a value
@@ -304,7 +304,7 @@ func ageTerm(t *Term, xkey string) *Term {
 	if args == nil {
 		return t
 	}
-	nt := &Term{Op: t.Op, Name: t.Name, Args: args, V: t.V, Fields: t.Fields, Pos: t.Pos}
+	nt := &Term{Op: t.Op, Name: t.Name, Args: args, V: t.V, Fields: t.Fields, Pos: t.Pos, Owner: t.Owner}
 	return collapseMap(nt)
 }
 
